@@ -832,6 +832,9 @@ class RecordLayer(object):
         # decrypt
         #
         if self._readState.encContext:
+            if self._readState.encContext.isAEAD:
+                # SSLv2 has no AEAD ciphers, the record can't be valid
+                raise TLSBadRecordMAC("SSLv2 record with AEAD cipher")
             if self._readState.encContext.isBlockCipher:
                 blockLength = self._readState.encContext.block_size
                 if len(data) % blockLength:
